@@ -1166,7 +1166,13 @@ class Fxp():
     # behaviors
 
     def _overflow_action(self, new_val, val_min, val_max):
-        if np.any(new_val > val_max):
+        _dtype = getattr(new_val, 'dtype', None)
+        if (isinstance(new_val, float) or (_dtype is not None and _dtype.kind == 'f')) and isinstance(val_max, int) and val_max >= 2**53:
+            # (rounded) floating point values against an upper limit that is not exact in float64: the next integer, a power of two, is
+            _over = np.any(new_val >= float(val_max + 1))
+        else:
+            _over = np.any(new_val > val_max)
+        if _over:
             self.status['overflow'] = True
             self._run_callbacks('on_status_overflow')
         if np.any(new_val < val_min):
